@@ -31,10 +31,15 @@ int main(int argc, char** argv)
     while (vh_readline(in, line)) {
         if (line.empty()) continue;
         std::vector<std::string> f = vh_split(line);
-        if (f[0] == "reset") { delete reg; reg = new TestRegistry; objs.clear(); fprintf(out, "{\"op\":\"reset\"}\n"); continue; }
+        if (f[0] == "reset") { delete reg; reg = new TestRegistry; objs.clear(); fprintf(out, "{\"op\":\"reset\"}\n"); continue; }   // (fresh plugin objects too)
         std::string name = f.size() > 1 ? f[1] : "";
         std::string res = "ok";
-        if (f[0] == "install") { objs[name] = new RecPlugin(name); /* never freed: a plugin the registry failed to unlink must stay valid */ reg->installPlugin(objs[name]); }
+        // one plugin object per name for the whole execution (never freed: a plugin the registry failed to unlink must stay valid):
+        // removing and installing it again is what a program does with its static plugin objects
+        if (!objs.count(name)) objs[name] = new RecPlugin(name);
+        if (f[0] == "install") reg->installPlugin(objs[name]);
+        else if (f[0] == "objenable") objs[name]->enable();
+        else if (f[0] == "objdisable") objs[name]->disable();
         else if (f[0] == "remove") reg->removePluginByName(name.c_str());
         else if (f[0] == "enable" || f[0] == "disable") {
             TestPlugin* p = reg->getPluginByName(name.c_str());
@@ -44,8 +49,8 @@ int main(int argc, char** argv)
         preLog.clear(); postLog.clear();
         reg->getFirstPlugin()->runAllPreTestAction(shell, result);
         reg->getFirstPlugin()->runAllPostTestAction(shell, result);
-        fprintf(out, "{\"op\":%s,\"name\":%s,\"res\":%s,\"count\":%d,\"pre\":%s,\"post\":%s}\n", vh_jstr(f[0]).c_str(), vh_jstr(name).c_str(), vh_jstr(res).c_str(),
-                reg->countPlugins(), arr(preLog).c_str(), arr(postLog).c_str());
+        fprintf(out, "{\"op\":%s,\"name\":%s,\"res\":%s,\"count\":%d,\"isen\":%s,\"pre\":%s,\"post\":%s}\n", vh_jstr(f[0]).c_str(), vh_jstr(name).c_str(), vh_jstr(res).c_str(),
+                reg->countPlugins(), objs[name]->isEnabled() ? "true" : "false", arr(preLog).c_str(), arr(postLog).c_str());
     }
     fflush(out); fclose(out); _exit(0);
 }
